@@ -118,39 +118,7 @@ func runC18(c *Ctx) {
 		if nSet != 1 {
 			c.viol(rule2, "exactly one clientIDAddrMap.Set call", "-", fmt.Sprintf("%d calls", nSet))
 		}
-		// every carrier records its address: from the successful ClientID read no path reaches
-		// the packet loops (the go statements) or a nil-error return without passing Set
-		for _, ci := range callsTo(tm, "io.ReadFull") {
-			rd, _ := ci.(*ssa.Call)
-			if rd == nil {
-				continue
-			}
-			okE := errNilEdges(tm, rd, 1)
-			okSet := len(okE) > 0
-			var wp []*ssa.BasicBlock
-			for _, e := range okE {
-				pth := psSearch(e.To(), nil, func(b *ssa.BasicBlock) bool {
-					for _, in := range b.Instrs {
-						if c2, ok := in.(ssa.CallInstruction); ok && calleeName(c2) == "(*server/lib.clientIDMap).Set" {
-							return true
-						}
-					}
-					return false
-				}, func(b *ssa.BasicBlock) bool {
-					for _, in := range b.Instrs {
-						if _, isGo := in.(*ssa.Go); isGo {
-							return true
-						}
-					}
-					return false
-				})
-				if pth != nil {
-					okSet = false
-					wp = pth
-				}
-			}
-			c.check(okSet, rule2, "turbotunnelMode records the address of every carrier before serving it", p.instrPos(rd), "Set on every path from the ClientID read to the packet loops", "a carrier can be served without its address being recorded (only the first carrier of a ClientID counts): the bridge is told the address of an earlier carrier", p.pathString(wp)...)
-		}
+		c.checkSetOnEveryCarrier(rule2)
 		// acceptStreams: Get once before the loop, keyed by RemoteAddr().(ClientID)
 		var get *ssa.Call
 		nGet := 0
@@ -382,5 +350,52 @@ func runC18(c *Ctx) {
 			}
 		}
 		c.check(okAlways, rule3, "Set takes a new slot on every call with a non-empty ring", p.Pos(set.Pos()), "", "a path of Set returns without inserting: a re-presented ClientID is not moved to most recent and is forgotten while older ones are kept", p.pathString(wp)...)
+	}
+}
+
+// checkSetOnEveryCarrier: from the successful ClientID read of turbotunnelMode no
+// path reaches the packet loops (the go statements) without passing
+// clientIDAddrMap.Set: every carrier records its address, whatever it is.
+func (c *Ctx) checkSetOnEveryCarrier(rule2 string) {
+	p := c.P
+	tm := p.Fn("server/lib", "turbotunnelMode")
+	if tm == nil {
+		c.undecided(rule2, "server/lib.turbotunnelMode", "-", "anchor does not resolve")
+		return
+	}
+	{
+		// every carrier records its address: from the successful ClientID read no path reaches
+		// the packet loops (the go statements) or a nil-error return without passing Set
+		for _, ci := range callsTo(tm, "io.ReadFull") {
+			rd, _ := ci.(*ssa.Call)
+			if rd == nil {
+				continue
+			}
+			okE := errNilEdges(tm, rd, 1)
+			okSet := len(okE) > 0
+			var wp []*ssa.BasicBlock
+			for _, e := range okE {
+				pth := psSearch(e.To(), nil, func(b *ssa.BasicBlock) bool {
+					for _, in := range b.Instrs {
+						if c2, ok := in.(ssa.CallInstruction); ok && calleeName(c2) == "(*server/lib.clientIDMap).Set" {
+							return true
+						}
+					}
+					return false
+				}, func(b *ssa.BasicBlock) bool {
+					for _, in := range b.Instrs {
+						if _, isGo := in.(*ssa.Go); isGo {
+							return true
+						}
+					}
+					return false
+				})
+				if pth != nil {
+					okSet = false
+					wp = pth
+				}
+			}
+			c.check(okSet, rule2, "turbotunnelMode records the address of every carrier before serving it", p.instrPos(rd), "Set on every path from the ClientID read to the packet loops", "a carrier can be served without its address being recorded (only the first carrier of a ClientID counts): the bridge is told the address of an earlier carrier", p.pathString(wp)...)
+		}
 	}
 }
